@@ -236,7 +236,7 @@ func vtC05Reservation(s vtC05Spec) *schedulingv1alpha1.Reservation {
 		}}}
 	} else {
 		r.Spec.Owners = []schedulingv1alpha1.ReservationOwner{{LabelSelector: &metav1.LabelSelector{
-			MatchLabels: map[string]string{"app": "x"},
+			MatchLabels: map[string]string{"app": fmt.Sprintf("x%d", s.uid)}, // each reservation has its own owner label
 		}}}
 	}
 	return r
@@ -322,7 +322,7 @@ func (r *vtC05Reader) pev() *corev1.Pod {
 		}}}
 	} else {
 		owners = []schedulingv1alpha1.ReservationOwner{{LabelSelector: &metav1.LabelSelector{
-			MatchLabels: map[string]string{"app": "x"},
+			MatchLabels: map[string]string{"app": fmt.Sprintf("x%d", 100+uid)},
 		}}}
 	}
 	data, _ := json.Marshal(owners)
@@ -432,6 +432,18 @@ func vtC05Dump(obs []int64, code int64, c *reservationCache) []int64 {
 		obs = append(obs, vtC05Vals(ri.Allocated, 0)...)
 		obs = append(obs, vtC05Vals(ri.Reserved, 0)...)
 		obs = append(obs, vtC05Vals(ri.Allocatable, -1)...)
+		switch ri.GetAllocatePolicy() {
+		case schedulingv1alpha1.ReservationAllocatePolicyAligned:
+			obs = append(obs, 1)
+		case schedulingv1alpha1.ReservationAllocatePolicyRestricted:
+			obs = append(obs, 2)
+		default:
+			obs = append(obs, 0)
+		}
+		al, rs := vtC05Vals(ri.Allocatable, 0), vtC05Vals(ri.Reserved, 0)
+		for d := range al {
+			obs = append(obs, al[d]-rs[d])
+		}
 	}
 	obs = vtC05DumpIdx(obs, c.reservationsOnNode)
 	obs = vtC05DumpIdx(obs, c.matchableOnNode)
@@ -459,6 +471,55 @@ func vtC05Dump(obs []int64, code int64, c *reservationCache) []int64 {
 	return obs
 }
 
+var vtC05Snapshot *fakeSharedLister
+var vtC05Nodes []*corev1.Node
+
+// vtC05Schedule runs BeforePreFilter -> Filter -> NominateReservation -> Reserve for pod pu (owner label of
+// reservation `target`, no reservation affinity) on `node`. The node snapshot holds the reserve pod of every
+// cached reservation, as the scheduler cache would. Result: the nominated reservation (0 none); negative = a
+// step of the cycle failed.
+func vtC05Schedule(pl *Plugin, c *reservationCache, nm *nominator, pu int64, req corev1.ResourceList, node, target int64) int64 {
+	pod := vtC05Pod(pu, req, 0, false, 0)
+	pod.Labels = map[string]string{"app": fmt.Sprintf("x%d", target)}
+	var pods []*corev1.Pod
+	c.lock.RLock()
+	for _, ri := range c.reservationInfos {
+		if rp := ri.GetReservePod(); rp != nil && ri.GetNodeName() != "" {
+			p := rp.DeepCopy()
+			p.Spec.NodeName = ri.GetNodeName()
+			pods = append(pods, p)
+		}
+	}
+	c.lock.RUnlock()
+	*vtC05Snapshot = *newFakeSharedLister(pods, vtC05Nodes, false)
+	nodeName := vtC05Str("n", node)
+	ctx := context.TODO()
+	cs := framework.NewCycleState()
+	if _, _, st := pl.BeforePreFilter(ctx, cs, pod); !st.IsSuccess() {
+		return -1
+	}
+	nodeInfo, err := vtC05Snapshot.Get(nodeName)
+	if err != nil || nodeInfo == nil || nodeInfo.Node() == nil {
+		return -2
+	}
+	if st := pl.Filter(ctx, cs, pod, nodeInfo); !st.IsSuccess() {
+		return -3
+	}
+	nominated, st := pl.NominateReservation(ctx, cs, pod, nodeName)
+	if !st.IsSuccess() {
+		return -4
+	}
+	st = pl.Reserve(ctx, cs, pod, nodeName)
+	nm.DeleteNominatedReservePodOrReservation(pod) // what the next event of the pod does
+	if !st.IsSuccess() {
+		return -5
+	}
+	if nominated == nil {
+		return 0
+	}
+	return vtC05RsvID(string(nominated.UID()))
+}
+
 func vtC05HistoryExec(in []int64) []int64 {
 	rd := &vtC05Reader{in: in}
 	c := newReservationCache(nil)
@@ -466,7 +527,9 @@ func vtC05HistoryExec(in []int64) []int64 {
 	rh := &reservationEventHandler{cache: c, rrNominator: nm}
 	ph := &podEventHandler{cache: c, nominator: nm}
 	lister := &vtC05Lister{}
-	pl := &Plugin{handle: vtC05Plugin.handle, rLister: lister, reservationCache: c, nominator: nm}
+	// the package's own test plugin (it is the framework's reservation nominator), run on the harness cache
+	pl := vtC05Plugin
+	pl.reservationCache, pl.nominator, pl.rLister = c, nm, lister
 	nops := int(rd.next())
 	var obs []int64
 	for i := 0; i < nops; i++ {
@@ -528,6 +591,11 @@ func vtC05HistoryExec(in []int64) []int64 {
 			cs.Write(stateKey, &stateData{})
 			pl.Unreserve(context.TODO(), cs, reservationutil.NewReservePod(r), vtC05Str("n", node))
 			lister.r = nil
+		case 13: // one scheduling cycle of the plugin for a pod without reservation affinity on a node with room
+			pu := rd.next()
+			req := rd.res()
+			node, target := rd.next(), rd.next()
+			code = vtC05Schedule(pl, c, nm, pu, req, node, target)
 		default:
 			rd.pos = len(rd.in)
 		}
@@ -711,7 +779,7 @@ func (g *vtC05GenState) pev(pu int64, forceRsv int64) []int64 {
 }
 
 func vtC05HistoryGen(r *rand.Rand, i int) (string, []int64) {
-	style := []string{"small", "small", "small", "large", "grow", "unstable", "once", "operating", "operating", "reserve", "reserve"}[r.Intn(11)]
+	style := []string{"small", "small", "small", "large", "grow", "unstable", "once", "operating", "operating", "reserve", "reserve", "sched", "sched", "sched"}[r.Intn(14)]
 	g := &vtC05GenState{r: r, style: style, nodeOf: map[int64]int64{}, lastRsv: map[int64]vtC05Spec{},
 		podReq: map[int64][]int64{}, podRsv: map[int64]int64{}, podNode: map[int64]int64{}, opPod: map[int64]bool{}, reserved: map[int64]bool{}}
 	nops := 2 + r.Intn(12)
@@ -724,7 +792,14 @@ func vtC05HistoryGen(r *rand.Rand, i int) (string, []int64) {
 		if style == "reserve" && r.Intn(2) == 0 {
 			k = 20
 		}
-		if j < 2 && r.Intn(3) != 0 && k < 20 {
+		if style == "sched" {
+			if j == 0 {
+				k = 0
+			} else if r.Intn(2) == 0 {
+				k = 21
+			}
+		}
+		if j < 2 && r.Intn(3) != 0 && k < 20 && style != "sched" {
 			k = r.Intn(2) // start with reservations most of the time
 		}
 		if style == "operating" {
@@ -776,6 +851,27 @@ func vtC05HistoryGen(r *rand.Rand, i int) (string, []int64) {
 		case k < 20 && !(style == "reserve" || r.Intn(6) == 0):
 			in = append(in, 10)
 			in = append(in, g.pev(pu, -1)...)
+		case k == 21 || (k < 20 && style == "sched" && r.Intn(3) == 0) || (k < 20 && style != "unstable" && r.Intn(10) == 0):
+			// a scheduling cycle for a pod owned by reservation `target` on a node (usually the reservation's)
+			if style == "unstable" {
+				in = append(in, 10)
+				in = append(in, g.pev(pu, -1)...)
+				break
+			}
+			target := ru
+			if style == "operating" && r.Intn(2) == 0 {
+				target = 100 + 1 + r.Int63n(5)
+			}
+			node := g.nodeOf[target]
+			if target > 100 {
+				node = g.podNode[target-100]
+			}
+			if node == 0 || r.Intn(8) == 0 {
+				node = int64(1 + r.Intn(2))
+			}
+			in = append(in, 13, pu)
+			in = append(in, g.req(pu)...)
+			in = append(in, node, target)
 		default:
 			// scheduling of the Reservation itself: Reserve on a node, possibly rolled back and retried elsewhere.
 			// The lister's object is usually still pending (no status.nodeName).
@@ -806,12 +902,23 @@ func vtC05HistoryGen(r *rand.Rand, i int) (string, []int64) {
 }
 
 func TestVerifC05History(t *testing.T) {
-	suit := newPluginTestSuit(t)
+	bigNode := func(name string) *corev1.Node {
+		alloc := corev1.ResourceList{}
+		for i := range vtC05Dims {
+			alloc[vtC05Dims[i]] = *resource.NewQuantity(int64(1)<<50, resource.DecimalSI)
+		}
+		alloc[corev1.ResourceCPU] = *resource.NewQuantity(int64(1)<<45, resource.DecimalSI) // 2^45 cores: milli value still fits int64
+		alloc[corev1.ResourcePods] = *resource.NewQuantity(100000, resource.DecimalSI)
+		return &corev1.Node{ObjectMeta: metav1.ObjectMeta{Name: name}, Status: corev1.NodeStatus{Allocatable: alloc, Capacity: alloc}}
+	}
+	vtC05Nodes = []*corev1.Node{bigNode("n01"), bigNode("n02")}
+	suit := newPluginTestSuitWith(t, nil, vtC05Nodes)
 	p, err := suit.pluginFactory()
 	if err != nil {
 		t.Fatal(err)
 	}
 	vtC05Plugin = p.(*Plugin)
+	vtC05Snapshot = suit.fw.SnapshotSharedLister().(*fakeSharedLister)
 	vtMain(t, "C05", vtC05HistoryGen, vtC05HistoryExec)
 }
 
